@@ -14,6 +14,7 @@ builddemo() {
   fi
 }
 rundemo() {
+  export NCOFFSETS=$wt/src/utils/ncoffsets/ncoffsets   # demos that call a utility take its path from the environment
   cd $wt
   if [ -f $mut/MUT/demo.c ]; then
     timeout 300 mpiexec --allow-run-as-root --oversubscribe -n $ranks $wt/demo_bin > $wt/demo_out.$1 2>&1
